@@ -73,7 +73,8 @@ PMTilesValid(L) ==
     /\ L.leaves[1] + L.leaves[2] <= L.filelen
     /\ L.data[1] + L.data[2] <= L.filelen
     /\ L.dirs_sorted = 1 /\ L.leaf_ptrs_inside = 1
-    /\ L.n_addressed = L.count_addressed /\ L.n_entries = L.count_entries
+    \* (the header counts may be 0 = "unknown" in PMTiles v3)
+    /\ (L.n_addressed = 0 \/ L.n_addressed = L.count_addressed) /\ (L.n_entries = 0 \/ L.n_entries = L.count_entries)
     /\ L.zmin <= L.zmax
 \* the `clustered' flag promises tile data in tile-id order
 PMTilesClusteredTruthful(L) == L.clustered = 1 => L.offsets_ascending_by_id = 1
@@ -107,7 +108,8 @@ RoundTripFails(r) ==
               /\ FlattenRes(r.streams) = tiles )) \cup
     \* ... and nothing anywhere else
     Fails("extra", r.opened.ok = 0 \/
-            \A i \in 1..Len(r.absent) : LET a == r.absent[i] IN <<a[1], a[2], a[3]>> \in Coords(tiles) \/ a[4] = 0)
+            \* (0 = no tile, -1 = an error return: neither is an additional tile)
+            \A i \in 1..Len(r.absent) : LET a == r.absent[i] IN <<a[1], a[2], a[3]>> \in Coords(tiles) \/ a[4] \in {0, -1})
 
 \* C02: every box stream = the lookups inside the box, as a bag
 StreamFails(r) ==
